@@ -1383,7 +1383,7 @@ def _run_repo_tests(case, ctx):
         try:
             r = subprocess.run([PY, "-m", "pytest", "-q", "-p", "no:cacheprovider", "-p", "vf.monitors",
                                 "--basetemp", os.path.join(base, "tmp"), *mods],
-                               env=env, cwd=repo, capture_output=True, text=True, timeout=1500, check=False)
+                               env=env, cwd=repo, capture_output=True, text=True, timeout=2400, check=False)
         except subprocess.TimeoutExpired as e:
             raise core.Inconclusive("repository tests under the monitors hit the wall-clock watchdog") from e
         dumps = []
